@@ -69,7 +69,7 @@ GROUPS = {
     'stack': ['vcell', 'stack'],
     'cont': ['vcell', 'stack', 'vm_struct', 'continuation', 'builtin_mod', 'builtin_procedure'],
     'builtins': ['vcell', 'stack', 'vm_struct', 'builtin_mod', 'builtin_vector', 'builtin_list'],
-    'compile': ['vm_struct', 'lambda', 'compile'],
+    'compile': ['vm_struct', 'lambda', 'compile', 'builtin_procedure_eval'],
     'numbuiltins': ['number', 'vcell', 'stack', 'vm_struct', 'builtin_mod', 'builtin_mod_num', 'builtin_number'],
 }
 
@@ -118,7 +118,8 @@ PROPS = {
             'assumptions': [
                 'scope: the compile-time half of C04 only -- which call instruction the compiler emits.  Decided: an application compiled with flag `tail` ends in TCALL iff the flag is set (compile_runtime_procedure_application); both branches of `if` inherit the flag of the whole form (compile_if); the dispatchers compile_expression / compile_procedure_application hand the flag through to `if` forms and applications; compile() hands it to the macro-expanded expression',
                 'compile_lambda: the last body expression of a procedure gets the flag set -- if it is an application, the code object stored in the heap behind the pointer left in the enclosing bytecode ends in TCALL; Ret (loop invariant over the remaining body; Heap::put assumed to box the code object: heap_deref / lambda_cell).  Its two `.iter().inspect(trace).map(|sym| self.heap.put_cell(sym)).collect::<Vec<VCell>>()` chains are closures capturing &mut self, which Verus rejects: they are rewritten mechanically into the equivalent push loop (rewrite map_collect).  compile_set (format! of a &&Cell) and compile_quasiquote (nesting-depth counters) carry an assumed frame contract only; compile_define / compile_symbol_expression / compile_define_syntax / compile_quote are verified for the frame (and panic-freedom, given that Heap::put_cell answers a pointer); compile_runnable (top level) is not under contract',
-                'NOT decided: the run-time half (run.rs TCALL arm rewriting the frame in place, VARARG normalisation, apply / call/cc / eval handing control back) -- run_one is one 300-line match outside what the proofs reach; the cond / case / and / or / when / unless / let-family forms are prelude.scm macros over `if` and `lambda`, their expansion is not under contract',
+                'eval (builtin/procedure.rs): the thunk built for the datum is compiled with the flag set -- if the macro-expanded datum is an application, the code object eval returns (to be entered by the re-dispatched call) ends in TCALL; Ret; pop_argc / Vm::pop / Heap::get_as_cell / Stack::push carry assumed contracts over an opaque stack (stack_top / stack_popped); every compile function is also proved to leave the machine registers alone (eval moves ip back afterwards)',
+                'NOT decided: the run-time half (run.rs TCALL arm rewriting the frame in place, VARARG normalisation, apply / call/cc handing control back) -- run_one is one 300-line match outside what the proofs reach; the cond / case / and / or / when / unless / let-family forms are prelude.scm macros over `if` and `lambda`, their expansion is not under contract',
                 'the contract speaks about branches that are themselves procedure calls (rt_app) or `if` forms; deeper nesting follows by the same contracts applied to the inner form, but the induction over the datum is not stated as a lemma',
                 'Cell accessor contracts (car, cdr, is_pair, is_nil, is_list, collect_vec, clone) assumed from their one-line bodies in cell.rs; Lambda::emit and Lambda::argc are verified (unit lambda; a Vec holds at most isize::MAX elements: axiom_vec_len); Lambda::binding_location assumed to answer an argument index below the argument count; core identity From<T> for T assumed (axiom_into_self); str extensionality (axiom_str_ext); a datum has fewer than 2^64 pairs (axiom_spine_fits, used for the argument counter)',
                 'executable rewrite inside compile_if: the slice-pattern match is desugared to length tests and indexing (Verus has no slice patterns)',
